@@ -147,7 +147,11 @@ func (t c16Task) String() string { return fmt.Sprintf("%d.%d", t.A, t.S) }
 
 type c16Cfg struct {
 	Kind string `json:"kind"` // bulk | chunk | periodical
-	N    int    `json:"n"`    // task threshold (bulk, periodical) or byte limit (chunk)
+	N    int    `json:"n"`    // task threshold (bulk, periodical) or byte limit (chunk) in force for this instance
+	// bulk/chunk: which options the constructor is given. "" = limit and interval;
+	// "none" = no option at all (N must be the package default); "interval" = interval only
+	// (default limit); "limit" = limit only (default interval)
+	Opts string `json:"opts,omitempty"`
 }
 
 type c16Batch struct {
@@ -222,6 +226,30 @@ func c16FromAny(tasks []any) ([]c16Task, string) {
 	return out, ""
 }
 
+func c16BulkOpts(cfg c16Cfg) []BulkOption {
+	switch cfg.Opts {
+	case "none":
+		return nil
+	case "interval":
+		return []BulkOption{WithBulkInterval(c16Interval)}
+	case "limit":
+		return []BulkOption{WithBulkTasks(cfg.N)}
+	}
+	return []BulkOption{WithBulkTasks(cfg.N), WithBulkInterval(c16Interval)}
+}
+
+func c16ChunkOpts(cfg c16Cfg) []ChunkOption {
+	switch cfg.Opts {
+	case "none":
+		return nil
+	case "interval":
+		return []ChunkOption{WithFlushInterval(c16Interval)}
+	case "limit":
+		return []ChunkOption{WithChunkBytes(cfg.N)}
+	}
+	return []ChunkOption{WithChunkBytes(cfg.N), WithFlushInterval(c16Interval)}
+}
+
 func c16New(cfg c16Cfg, hook func(*c16Batch)) *c16Sys {
 	s := &c16Sys{cfg: cfg, hook: hook, done: map[c16Task]int{}}
 	switch cfg.Kind {
@@ -229,7 +257,7 @@ func c16New(cfg c16Cfg, hook func(*c16Batch)) *c16Sys {
 		be := NewBulkExecutor(func(tasks []any) {
 			ts, bad := c16FromAny(tasks)
 			s.onExecute(ts, bad)
-		}, WithBulkTasks(cfg.N), WithBulkInterval(c16Interval))
+		}, c16BulkOpts(cfg)...)
 		s.pe = be.executor
 		s.addFn = func(t c16Task) { _ = be.Add(t) }
 		s.flushFn, s.waitFn = be.Flush, be.Wait
@@ -237,7 +265,7 @@ func c16New(cfg c16Cfg, hook func(*c16Batch)) *c16Sys {
 		ce := NewChunkExecutor(func(tasks []any) {
 			ts, bad := c16FromAny(tasks)
 			s.onExecute(ts, bad)
-		}, WithChunkBytes(cfg.N), WithFlushInterval(c16Interval))
+		}, c16ChunkOpts(cfg)...)
 		s.pe = ce.executor
 		s.addFn = func(t c16Task) { _ = ce.Add(t, t.Size) }
 		s.flushFn, s.waitFn = ce.Flush, ce.Wait
@@ -553,6 +581,15 @@ func c16Verify(m *vk.M, desc string, cfg c16Cfg, o c16Obs, st *c16Stats) bool {
 		// order inside the batch: per adder increasing and contiguous; across adders
 		// wherever one Add returned before the other was called
 		last := map[int]int{}
+		// minEndAfter[i] = smallest "Add returned" stamp among tasks[i:] (linear pre-pass)
+		minEndAfter := make([]int64, len(b.tasks)+1)
+		minEndAfter[len(b.tasks)] = 1 << 62
+		for i := len(b.tasks) - 1; i >= 0; i-- {
+			minEndAfter[i] = minEndAfter[i+1]
+			if e := added[b.tasks[i]].end; e != 0 && e < minEndAfter[i] {
+				minEndAfter[i] = e
+			}
+		}
 		for i, t := range b.tasks {
 			if p, ok := last[t.A]; ok {
 				if t.S < p {
@@ -565,6 +602,9 @@ func c16Verify(m *vk.M, desc string, cfg c16Cfg, o c16Obs, st *c16Stats) bool {
 				}
 			}
 			last[t.A] = t.S
+			if minEndAfter[i+1] >= added[t].begin {
+				continue // no later task of the batch had its Add return before this Add began
+			}
 			for j := i + 1; j < len(b.tasks); j++ {
 				u := b.tasks[j]
 				if ue := added[u].end; ue != 0 && ue < added[t].begin {
